@@ -92,7 +92,7 @@ def judge(res, v, spec):
     for rj in v['rejects']:
         call = rj['call']
         seg = rj['segment']
-        facts = {'event': call.get('e'), 'op': call.get('op'), 'T': call.get('T'), 'clauses': rj['clauses']}
+        facts = {'event': call.get('e'), 'op': call.get('op'), 'T': call.get('T') or ('cpp_int' if str(call.get('e', '')).endswith('Big') else None), 'clauses': rj['clauses']}
         for k in ('a', 'b', 'p', 'd', 'k', 'set'):
             if k in call:
                 facts[k] = call[k]
@@ -193,6 +193,21 @@ def check_C18(res, tier, seed, replay):
                 pure.append('PRIME %s %d' % (T, p))
             for _ in range(100 if tier == 'quick' else 1000):
                 pure.append('PRIME %s %d' % (T, rng.randint(2, 2000000)))
+        # multiprecision operands far beyond 31 bits (cpp_int): decided by TLC through residues modulo 12 primes
+        BIGP = [2305843009213693951, 618970019642690137449562111, 1000000007, 18446744073709551557]   # primes (2^61-1, 2^89-1, ...)
+        for _ in range(300 if tier == 'quick' else 4000):
+            bits = rng.choice([33, 48, 64, 70, 79])
+            a = rng.getrandbits(bits) * rng.choice([1, -1]); b = rng.getrandbits(rng.choice([20, 33, 64, 79])) * rng.choice([1, -1])
+            if rng.random() < 0.2:
+                c = rng.getrandbits(24) + 1; a *= c; b *= c          # a common factor
+                if max(a.bit_length(), b.bit_length()) > 80:
+                    continue
+            if a or b:
+                pure.append('GCDBIG %d %d' % (a, b))
+        for _ in range(150 if tier == 'quick' else 2000):
+            p = rng.choice(BIGP)
+            a = rng.randrange(1, min(p, 1 << 79))
+            pure.append('INVBIG %d %d' % (a, p))
         res.cov['exhaustive_space'] = 'ext_gcd on all pairs in -%d..%d, get_mult_inverse for all a<=p+2, p<=%d, is_prime for 2..%d, for int, long, cpp_int' % (K, K, PM, 700 if tier == 'quick' else 2500)
         trace, ev, v = run_script(res, exe, wd, 'fp_pure', pure, 'Trace_FP', 'Trace_FP.cfg', None, by_history=False)
         res.add_validation(v, len(pure))
